@@ -118,9 +118,9 @@ def check(ctx):
     ctx.inst('R6', run, 'both-branches-send-frame', all(norm(c.args[-1]) == frame for _, c in tx), 'both send branches transmit the same frame variable %s' % frame)
     fb = sorted([n for n in g.nodes if n.kind == 'stmt' and isinstance(n.ast, ast.Assign) and norm(n.ast.targets[0]) == frame], key=lambda n: (n.id in body, n.line))   # the binding before the loop first (inlined code keeps its own line numbers)
     deq = [(n, c) for n, c in g.find(lambda q: method_call(q, 'get') and 'out_queue' in norm(q.func.value)) if n.id in body]
-    ctx.need(len(deq) == 1 and len(fb) == 2, 'run(): dequeue / frame bindings not found (dequeues=%d, bindings=%d)' % (len(deq), len(fb)))
+    ctx.need(len(deq) >= 1 and len(fb) >= 2, 'run(): dequeue / frame bindings not found (dequeues=%d, bindings=%d)' % (len(deq), len(fb)))
     ctx.inst('R6', run, 'initial-null-frame', fb[0].id not in body and norm(fb[0].ast.value) == "array.array('B', [255])", 'the first frame is the null packet 0xFF; found %s' % norm(fb[0].ast.value))
-    ctx.inst('R6', run, 'rebind-after-dequeue', fb[1].id in body and g.dominates(deq[0][0], fb[1]), 'the frame is rebuilt only after the dequeue')
+    ctx.inst('R6', run, 'rebind-after-dequeue', all(b.id in body and any(g.dominates(d[0], b) for d in deq) for b in fb[1:]), 'the frame is rebuilt only after the dequeue')
     # ---- R5 ----------------------------------------------------------------------------------------
     cont_edges = []
     for n in g.nodes:
@@ -133,19 +133,18 @@ def check(ctx):
                         cont_edges.append(e)
     must = [e for e in cont_edges]
     tests = {e.src.id for e in must}
-    domq = g.dom().get(('n', deq[0][0].id)) or set()
-    domr = g.dom().get(('n', fb[1].id)) or set()
-    kinds = {'ack-not-false': False, 'status-not-none': False}
-    for e in must:
-        for f in e.facts():
-            kind = 'status-not-none' if 'None' in f.text else 'ack-not-false'
-            if ('e', e.id) in domq and ('e', e.id) in domr:
-                kinds[kind] = True
+    # every place that takes the next packet or builds the next frame (there may be more than one) lies behind both ack tests
+    sinks = [d[0] for d in deq] + [b for b in fb if b.id in body]
+    doms = [g.dom().get(('n', x.id)) or set() for x in sinks]
+    kinds = {'ack-not-false': True, 'status-not-none': True}
+    for kind in kinds:
+        es = [e for e in must if any(('status-not-none' if 'None' in f.text else 'ack-not-false') == kind for f in e.facts())]
+        kinds[kind] = bool(es) and all(any(('e', e.id) in d for e in es) for d in doms)
     for kind, ok in kinds.items():
         ctx.inst('R5', run, 'unacked-frame-kept:' + kind, ok,
                  'every path to the dequeue and to the rebinding of the frame must pass the "%s" edge (otherwise an un-acknowledged frame is replaced = lost)' % kind)
     for n, c in tx:
-        w = g.path_avoiding(n, [deq[0][0], fb[1]], avoid_edges=must)
+        w = g.path_avoiding(n, sinks, avoid_edges=must)
         ctx.inst('R5', run, 'retry-before-dequeue@%d' % n.line, w is None and len(tests) == 2,
                  'path from the transmission to the next frame that avoids the ack tests: %s' % (g.fmt_path(w) if w else 'ack tests found: %d' % len(tests)))
     # ---- R7 ----------------------------------------------------------------------------------------
@@ -172,6 +171,15 @@ def check(ctx):
     wr = [(f.qualname, norm(s)) for f in m.mod(RD).all_funcs() for s in walk_own(f.node) if isinstance(s, (ast.Assign, ast.AugAssign)) and
           norm(s.targets[0] if isinstance(s, ast.Assign) else s.target).split('.')[-1] == ctr.split('.')[-1] and f.qualname not in ('_RadioDriverThread.run', '_RadioDriverThread.__init__')]
     ctx.inst('R7', run, 'no-other-counter-writers', not wr, 'other writers of the failure counter: %s' % wr)
+    # the configured number is the number: the setter stores its argument as given (n + 1, max(n, 1) ... report after a different
+    # number of losses than the application asked for), and nothing else writes the module-level limit
+    lim_w = [(f, s_) for f in m.mod(RD).all_funcs() for s_ in walk_own(f.node) if isinstance(s_, (ast.Assign, ast.AugAssign, ast.AnnAssign)) and
+             norm(s_.targets[0] if isinstance(s_, ast.Assign) else s_.target) == '_nr_of_retries' and
+             any(isinstance(x, ast.Global) and '_nr_of_retries' in x.names for x in walk_own(f.node))]
+    ok_lim = bool(lim_w) and all(f.qualname == 'set_retries_before_disconnect' and isinstance(s_, ast.Assign) and isinstance(s_.value, ast.Name) and
+                                 s_.value.id == f.params[0] and unchanged_param(cfg_of(f), cfg_of(f).node_of(s_), f.params[0]) for f, s_ in lim_w)
+    ctx.inst('R7', m.func(RD, 'set_retries_before_disconnect'), 'configured-limit-stored-as-given', ok_lim,
+             'set_retries_before_disconnect(n) makes n the limit; writers of the limit: %s' % [(f.qualname, norm(s_)) for f, s_ in lim_w])
     # the report reaches the application's callback itself: connect() hands its link_error_callback argument to the thread as it got
     # it (not wrapped, filtered or replaced), the thread stores it and calls it
     tp = ini.params
